@@ -9,7 +9,7 @@ COQ_CORR = 'corr_C19'
 N_QUICK = 2500
 N_THOROUGH = 12000
 THOROUGH_EXHAUSTIVE = False
-VM_CASES = 53          # the first cases are also evaluated inside Coq (vm_compute); the corpus minus its last entry
+VM_CASES = 58          # the first cases are also evaluated inside Coq (vm_compute); the corpus minus its last entry
 RULE = ('cases = corpus + random rules printed from abstract token lists (literal chunks incl. digits, "-", ".", '
         'non-ASCII; values containing CR (the wildcard marker), LF, NUL, TAB; plain wildcards in the three flavours :n <n> {n}; int/float/re/path filters in bottle and dotted '
         'flavour, named and anonymous; adjacent wildcards, adjacent literals, leading/trailing literals) x paths that '
@@ -169,6 +169,12 @@ def corpus():
         mk([W('a'), L('/'), W('b', fl='{'), L('/'), W('c', 'int')], '/\r/\r\r/7'),
         mk([L('p/'), W('a', 'path'), L('/e/'), W('b'), L('.'), W(None, 're', '[^/]+')], '/p/q\rr/e/\n.\r'),
         mk([W('a'), L('-'), W(None, 'int')], None, [['i', 5]], {'a': ['s', 'x\ry']}),
+        # ---- a value that begins with '/' directly after a literal ending in '/' (doubled slash in the request path)
+        mk([L('files/'), W('p', 'path')], '/files//etc/passwd'),
+        mk([L('files/'), W('p', 'path')], '/files//'),
+        mk([L('files/'), W('p', 're', '.+', 'd<'), L('.txt')], '/files//a//b.txt'),
+        mk([L('d/'), W(None, 're', '/?[a-z]+'), L('/'), W('q', 're', '/?[a-z]+', 'd{')], '/d//abc//q'),
+        mk([L('files/'), W('p', 'path')], None, [], {'p': ['s', '/abs/path']}),
         # ---- several rules in one process: Route objects side by side / one router; repeated calls
         mk_multi('route', [[W('x', 'int')], [W('x', 'float')], [W('x')], [W('x', 're', '[a-z]+')], [W('x', 're', 'a*', 'd<')]],
                  [[0, '/7'], [1, '/7'], [2, '/7'], [0, '/7'], [3, '/ab'], [4, '/aa'], [1, '/1.5'], [0, None, [], {'x': ['s', '+3']}]],
@@ -209,9 +215,9 @@ def corpus():
     ]
 
 
-LITS = ['a', 'ab', 'abc', 'b', 'e', 'x-y', '0', '7', '-', '.5', 'a.b', '.txt', 'z', 'é', '10']
+LITS = ['a', 'ab', 'abc', 'b', 'e', 'x-y', '0', '7', '-', '.5', 'a.b', '.txt', 'z', 'é', '10', 'files/', 'a/']
 SEPS = ['/', '/', '/', '', '-', '.']
-RE_ARGS = ['[a-z]+', 'a*', '[^/]+', r'\d{2}', 'ab|a', '[a-z]*']
+RE_ARGS = ['[a-z]+', 'a*', '[^/]+', r'\d{2}', 'ab|a', '[a-z]*', '/?[a-z]+', '.+']
 # values may contain the wildcard marker itself (%0D in a request path is plain text since fix F1) and other controls
 PLAIN_VALS = ['v', 'abc', '', '12', 'a.b', 'é', '-0', 'x y', '0', 'a-b', 'x\ry', '\r', '\r\r', 'a\nb', '\x00', '\t7',
               'b\n', '\ud800', '²', 'ß\u0130', '\U0001f600']
@@ -222,9 +228,11 @@ FLOAT_VALS = ['1.5', '0.00001', '3', '-0', '-2.50', '12345678901234567890', '0.1
 REX_ARGS = [('(foo)|(bar)', 1), ('(foo)|(bar)', 2), ('fo+', None), ('(a)|(b)|(c)', 3), ('(x+)y', None)]
 REX_VALS = {('(foo)|(bar)', 1): ['foo', 'bar'], ('(foo)|(bar)', 2): ['bar', 'foo'], ('fo+', None): ['fo', 'foo', 'f'],
             ('(a)|(b)|(c)', 3): ['c', 'a'], ('(x+)y', None): ['xxy', 'xy']}
-RE_VALS = {'[a-z]+': ['a', 'abc', 'zz', '', 'ab\n'], 'a*': ['', 'a', 'aaa'], '[^/]+': ['a', 'a-b.c', '12', 'x\ry', '\r'],
+RE_VALS = {'/?[a-z]+': ['/abc', 'abc', '/q'], '.+': ['/etc/passwd', '/', 'a/b', '//', 'x'],
+           '[a-z]+': ['a', 'abc', 'zz', '', 'ab\n'], 'a*': ['', 'a', 'aaa'], '[^/]+': ['a', 'a-b.c', '12', 'x\ry', '\r'],
            r'\d{2}': ['12', '00', '123'], 'ab|a': ['ab', 'a'], '[a-z]*': ['', 'q', 'abc']}
-PATH_VALS = ['a', 'a/b', 'a/b/c.txt', 'e/e', 'x.y/z', 'q\rr/s', '\r/\r', 'a\n', 'a\nb/c', '\ud800/x']
+# (a path/re value may begin with '/': a request path with a doubled slash at the wildcard, /files//etc/passwd)
+PATH_VALS = ['/etc/passwd', '/', '//x', '/a/', 'a', 'a/b', 'a/b/c.txt', 'e/e', 'x.y/z', 'q\rr/s', '\r/\r', 'a\n', 'a\nb/c', '\ud800/x']
 
 
 def gen_toks(rng):
@@ -469,7 +477,7 @@ def thorough():
     pool = [L('a'), L('/'), L('-'), L('0'),
             W('x'), W('y', fl='{'), W('n', 'int'), W('m', 'int', fl='d{'), W(None, 'int', fl='d<'),
             W('r', 're', 'a*', 'd<'), W('p', 'path'), W('f', 'float')]
-    vals = {None: ['', 'v', '0', '\r'], 'int': ['0', '-0', '12', '-3'], 're': ['', 'aa'], 'path': ['q', 'q/r'],
+    vals = {None: ['', 'v', '0', '\r'], 'int': ['0', '-0', '12', '-3'], 're': ['', 'aa'], 'path': ['q', 'q/r', '/q', '/'],
             'float': ['1.5', '-0', '0.00001']}
     for ln in (1, 2, 3):
         for toks in itertools.product(pool, repeat=ln):
@@ -489,7 +497,8 @@ def thorough():
 # implementation side
 # --------------------------------------------------------------------------
 
-_EXC = {'IndexError': 1, 'KeyError': 2, 'ValueError': 3, 'TypeError': 4, 'AssertionError': 5}
+# (OverflowError: int(float('inf')) when a float reaches an int wildcard — a wrongly typed argument, never built by the model)
+_EXC = {'IndexError': 1, 'KeyError': 2, 'ValueError': 3, 'TypeError': 4, 'AssertionError': 5, 'OverflowError': 7}
 
 
 def _cps(s):
@@ -1160,10 +1169,25 @@ def _is_multi(case):
     return case.get('kind') == 'multi'
 
 
+def _renamed_calls(case):
+    """indices of the calls of a via=router sequence that go to a rule sharing its Route with an EARLIER rule of
+    the same pattern but other wildcard names (finding F19-shared-route-names; not in the model)"""
+    if not (_is_multi(case) and case['via'] == 'router'):
+        return set()
+    rules = case['rules']
+    out = set()
+    for k, op in enumerate(case['ops']):
+        j = op[0]
+        if any(_shape(rules[i]) == _shape(rules[j]) and _names(rules[i]) != _names(rules[j]) for i in range(j)):
+            out.add(k)
+    return out
+
+
 def project(obs, case):
     if _is_multi(case):
-        return {'ops': [{'skip': 1} if 'add_error' in o else _project_single(o, sub)
-                        for o, sub in zip(obs.get('ops', []), _subcases(case))]}
+        ren = _renamed_calls(case)
+        return {'ops': [{'skip': 1} if ('add_error' in o or k in ren) else _project_single(o, sub)
+                        for k, (o, sub) in enumerate(zip(obs.get('ops', []), _subcases(case)))]}
     return _project_single(obs, case)
 
 
@@ -1172,8 +1196,9 @@ def encode(case):
         return _encode_single(case)
     obs = _observe(case)
     out = [-2, len(case['ops'])]
-    for o, sub in zip(obs['ops'], _subcases(case)):
-        e = [-1] if 'add_error' in o else _encode_single(sub)
+    ren = _renamed_calls(case)
+    for k, (o, sub) in enumerate(zip(obs['ops'], _subcases(case))):
+        e = [-1] if ('add_error' in o or k in ren) else _encode_single(sub)
         out += [len(e)] + e
     return out
 
@@ -1273,16 +1298,18 @@ def _names(toks):
 
 
 def pred_shared_pattern_other_names(case, what, m):
-    """one RadiRouter, two rules with the same pattern and filters but different wildcard names: they share
-    one Route object, whose url() knows only the names of the rule registered first"""
-    if not (_is_multi(case) and case['via'] == 'router'):
+    """one RadiRouter, two rules with the same pattern and filters but different wildcard names: they share one
+    Route object, whose url() knows only the names of the rule registered first -> KeyError on exactly those calls"""
+    import re
+    mt = re.match(r'call (\d+) on rule .*?: (.*)$', str(what), re.S)
+    if not mt or int(mt.group(1)) not in _renamed_calls(case):
         return False
-    rules = case['rules']
-    for op in case['ops']:
-        j = op[0]
-        for i in range(j):
-            if _shape(rules[i]) == _shape(rules[j]) and _names(rules[i]) != _names(rules[j]):
-                return True
+    k, msg = int(mt.group(1)), mt.group(2)
+    if msg == 'building the url from matched parameters raised KeyError':
+        return True
+    if msg == 'a Route built alone for that rule answers differently':
+        # explicit arguments under the second rule's names: the shared Route raises KeyError, a lone one does not
+        return _observe(case)['ops'][k].get('url') == ['err', 'KeyError']
     return False
 
 
@@ -1297,21 +1324,47 @@ def pred_rex_group_not_whole_match(case, what, m):
     return any(t[2] == 'rex' and isinstance(v, str) and re.fullmatch(t[3], v) is None for t, v in zip(ws, vals))
 
 
-def _any_sub(pred):
+# what the oracle says when a finding shows (a finding excuses nothing else: not a url that is not the literals
+# interleaved with the values, not another exception, not a model/implementation disagreement)
+_W_ASSERT = 'building the url from matched parameters raised AssertionError'
+_W_LOST = ('the built url ', ' is not matched by the rule')
+_W_OTHER = ('the built url ', ' matches with other values')
+
+
+def _what_is(what, *kinds):
+    what = str(what)
+    for k in kinds:
+        if isinstance(k, tuple):
+            if what.startswith(k[0]) and k[1] in what:
+                return True
+        elif what == k:
+            return True
+    return False
+
+
+def _finding(pred, *kinds):
+    """the predicate on the case, restricted to the failure kinds the finding produces and, in a sequence of calls,
+    to the call the oracle names"""
+    import re
+
     def f(case, what, m):
+        what = str(what)
         if _is_multi(case):
-            return any(pred(sub, what, m) for sub in _subcases(case))
-        return pred(case, what, m)
+            mt = re.match(r'call (\d+) on rule .*?: (.*)$', what, re.S)
+            if not mt or int(mt.group(1)) >= len(case['ops']):
+                return False
+            case, what = _subcases(case)[int(mt.group(1))], mt.group(2)
+        return _what_is(what, *kinds) and pred(case, what, m)
     return f
 
 
 PREDICATES = {
-    'float_reformatted_after_regex': _any_sub(pred_float_reformatted_after_regex),
-    'float_repr_not_plain': _any_sub(pred_float_repr_not_plain),
-    'regex_matched_empty': _any_sub(pred_regex_matched_empty),
-    'minus_zero_after_number': _any_sub(pred_minus_zero_after_number),
+    'float_reformatted_after_regex': _finding(pred_float_reformatted_after_regex, _W_LOST, _W_OTHER),
+    'float_repr_not_plain': _finding(pred_float_repr_not_plain, _W_ASSERT, _W_LOST, _W_OTHER),
+    'regex_matched_empty': _finding(pred_regex_matched_empty, _W_ASSERT),
+    'minus_zero_after_number': _finding(pred_minus_zero_after_number, _W_LOST, _W_OTHER),
     'shared_pattern_other_names': pred_shared_pattern_other_names,
-    'rex_group_not_whole_match': _any_sub(pred_rex_group_not_whole_match),
+    'rex_group_not_whole_match': _finding(pred_rex_group_not_whole_match, _W_ASSERT),
 }
 
 MANIFEST = dict(
